@@ -1,3 +1,4 @@
 pub mod choice;
 pub mod engine;
 pub mod props;
+pub mod testalloc;
